@@ -768,7 +768,8 @@ func (rw *regWorld) apply(op string, judge bool) (viol []string, digest string, 
 	case "entrm", "entadd":
 		p, e := f[1], uint(atoi(f[2]))
 		pe := w.Peers[p]
-		if !m.conn[p] || m.undisc[p] {
+		// (a peer may announce entities by partial notifications before its discovery reply has arrived)
+		if !m.conn[p] {
 			break
 		}
 		st := model.NetworkManagementStateChangeTypeRemoved
